@@ -1,10 +1,13 @@
 (* C18 — re-exports the proofs used by Property.v
    LemmasViewer / LemmasViewer2 : the viewer mirrors the collection (part 1)
+   LemmasBlocks                 : the block-aware executable run_d; guarded theorem and refutation inside blocks
    LemmasPicker                 : attribute pickers and dataset pickers (parts 2-3)
    LemmasAxes                   : image viewer axes (part 4) *)
-From GV Require Export C18.Model C18.LemmasPicker C18.LemmasViewer C18.LemmasViewer2 C18.LemmasAxes.
+From GV Require Export C18.Model C18.LemmasPicker C18.LemmasViewer C18.LemmasViewer2 C18.LemmasBlocks C18.LemmasAxes.
 
-Definition viewer_inv_reachable := LemmasViewer2.viewer_inv_reachable.
+Definition viewer_inv_reachable := LemmasBlocks.viewer_inv_reachable.
+Definition viewer_inv_reachable_plain := LemmasViewer2.viewer_inv_reachable.
+Definition viewer_blocks_refuted := LemmasBlocks.viewer_blocks_refuted.
 Definition picker_inv_reachable := LemmasPicker.picker_inv_reachable.
 Definition dpicker_inv_reachable := LemmasPicker.dpicker_inv_reachable.
 Definition image_axes_distinct := LemmasAxes.image_axes_distinct.
